@@ -702,8 +702,7 @@ class Interp:
         if out != "ok":
             env.vars["result"] = None
             env.vars["raised"] = out
-            for gname, gcl in c.effects.items():
-                self.ghost[gname] = self.eval_spec(gcl, env)
+            self.apply_effects(c, env)
             fac = getattr(self.reg, "exception_factories", {}).get(out)
             if fac is not None:
                 import inspect as _inspect
@@ -732,11 +731,23 @@ class Interp:
         env.vars["raised"] = None
         for k, cl in (c.call_ensures if c.call_ensures is not None else c.ensures).items():
             self.path.assume(truthy(self.eval_spec(cl, env, olds)))
-        for gname, gcl in c.effects.items():
-            self.ghost[gname] = self.eval_spec(gcl, env)
+        self.apply_effects(c, env)
         if not c.pure:
             self.abstract_log.append((fq, result, None))
         return result
+
+    def apply_effects(self, c, env):
+        """Ghost updates of an abstract call. An effect that reads a ghost variable the contract under verification does not declare is not
+        relevant to it (shared callee contracts carry the effects of several properties) and is skipped."""
+        new = {}
+        for gname, gcl in c.effects.items():
+            try:
+                new[gname] = self.eval_spec(gcl, env)
+            except OutOfSubset as e:
+                if "ghost variable" in str(e) and "not declared" in str(e):
+                    continue
+                raise
+        self.ghost.update(new)
 
     def pure_app(self, c, fq, vals):
         """Application of the uninterpreted function that stands for a pure contracted callee."""
@@ -907,7 +918,34 @@ class Interp:
         env.assign(s.name, v)
 
     def x_ClassDef(self, s, env):
-        raise OutOfSubset("nested class definition")
+        """A class defined inside a function: its methods are closures over the enclosing frame; bases may be values of the enclosing frame."""
+        mod = env.module
+        e = env
+        while mod is None and e is not None:
+            mod = e.module
+            e = e.parent
+        bases = []
+        for b in s.bases:
+            bv = self.eval(b, env)
+            if isinstance(bv, VClass):
+                bases.append(bv)
+            elif isinstance(bv, VObj) and bv.cls.builtin:
+                bases.append(bv.cls)  # a nominal class object passed in as a value
+            else:
+                raise OutOfSubset(f"base class {bv!r} of nested class {s.name}")
+        cls = VClass(s.name, mod, bases, node=s)
+        cls.closure = env
+        cenv = Env(parent=env, module=mod, fn=env.fn)
+        for st in s.body:
+            if isinstance(st, ast.Expr) and isinstance(st.value, ast.Constant):
+                continue
+            self.exec(st, cenv)  # conditional method definitions (`if ...: def before_call`) are decided here, as in Python
+        for name, v in cenv.vars.items():
+            if isinstance(v, VFunc):
+                cls.methods[name] = (v.node, "method")
+            else:
+                cls.attr_cache[name] = v
+        env.assign(s.name, cls)
 
     def x_Assign(self, s, env):
         v = self.eval(s.value, env)
@@ -1713,7 +1751,7 @@ class Interp:
             m = obj.cls.find_method(name)
             if m is not None:
                 owner, (node, k) = m
-                fn = self.make_function(node, owner.module, None, f"{owner.name}.{name}", owner=owner)
+                fn = self.make_function(node, owner.module, getattr(owner, "closure", None), f"{owner.name}.{name}", owner=owner)
                 if k == "property":
                     return self.call_repo_function(fn, [obj], {})
                 if k == "static":
@@ -1746,13 +1784,17 @@ class Interp:
             m = obj.find_method(name)
             if m is not None:
                 owner, (node, k) = m
-                fn = self.make_function(node, owner.module, None, f"{owner.name}.{name}", owner=owner)
+                fn = self.make_function(node, owner.module, getattr(owner, "closure", None), f"{owner.name}.{name}", owner=owner)
                 if k == "class":
                     return VBound(fn, obj)
                 return fn
             ok, v = self.class_attr(obj, name)
             if ok:
                 return v
+            for c in obj.mro():
+                nm = self.reg.nominal_methods.get(c.qualname, {}).get(name)
+                if nm is not None:
+                    return BuiltinFn(f"{c.name}.{name}", lambda it, a, k, _o=obj, _f=nm: _f(it, _o, a, k))
             self.raise_builtin("AttributeError", name)
         if isinstance(obj, ModuleInfo):
             try:
